@@ -107,7 +107,7 @@ Metric(obs, unit, orig, dims, flags) ==
 StringCall == [NoCall EXCEPT !.kind = "string"]
 ErrorCall(e) == [NoCall EXCEPT !.kind = "error", !.err = e]
 
-AllBases == {"str", "u64", "f64", "dur", "distu", "distdur", "mean", "rich", "err", "empty", "bad", "zero", "zeron"}
+AllBases == {"str", "u64", "f64", "dur", "distu", "distdur", "mean", "rich", "err", "empty", "bad", "zero", "zeron", "richi"}
 
 \* what the plain value writes, and the unit its type promises
 BaseVal(b) ==
@@ -124,6 +124,9 @@ BaseVal(b) ==
       \* a hand-written value: three kinds of observation, own dimension, own flag, unit Bytes
       [] b = "rich"    -> [call |-> Metric(<<Ob("U", 1, 0, 0), Ob("F", 2, 0, 0), Ob("R", 3, 0, 3)>>, "Byte", "Byte",
                                           <<"b0">>, {"C"}), prom |-> "Byte"]
+      \* one observation of each kind, the Repeated with 3 occurrences, nothing else (an input of collectors)
+      [] b = "tri"     -> [call |-> Metric(<<Ob("U", 1, 0, 0), Ob("F", 2, 0, 0), Ob("R", 3, 0, 3)>>, "None", "None", <<>>, {}),
+                           prom |-> "None"]
       [] b = "err"     -> [call |-> ErrorCall("base"), prom |-> "None"]
       [] b = "empty"   -> [call |-> NoCall, prom |-> "None"]
       \* promises Seconds, writes Bytes
@@ -133,6 +136,10 @@ BaseVal(b) ==
       \* that their loss is visible, once bare.  Not to be confused with "empty" (no call at all).
       [] b = "zero"    -> [call |-> Metric(<<>>, "Second", "Second", <<"z0">>, {"C"}), prom |-> "Second"]
       [] b = "zeron"   -> [call |-> Metric(<<>>, "None", "None", <<>>, {}), prom |-> "None"]
+      \* a hand-written value with two own dimensions; the harness hands observations and dimensions to the
+      \* writer through filter_map (size hint with lower bound 0) - invisible here: a sequence is a sequence
+      [] b = "richi"   -> [call |-> Metric(<<Ob("U", 1, 0, 0), Ob("F", 2, 0, 0)>>, "None", "None", <<"b0", "b1">>, {}),
+                           prom |-> "None"]
 
 -----------------------------------------------------------------------------
 (* Value wrappers: [w, ds, f, from, to] *)
@@ -188,12 +195,23 @@ CollectDist(prom, elems) ==
     IF elems = <<>> THEN NoCall
     ELSE IF CollectErrs(prom, elems) # {} THEN ErrorCall(CollectErr(prom, elems[Min(CollectErrs(prom, elems))]))
     ELSE Metric(CatObs(elems, 1), prom, prom, <<>>, {})
-\* Mean (try_new / try_extend / record_value): a bad element -> Err; else one Repeated over all elements
-\* (here: elements with one observation each, the first carries the magnitude, the others are 0)
+\* Mean (try_new / try_extend / record_value / try_to_mean): a bad element -> Err; else ONE Repeated whose
+\* total is the SUM of what the elements reported (an Unsigned / Floating counts its value once, a Repeated
+\* its whole total - not total/occurrences) and whose occurrences are the sum of theirs (1, 1, occ).
+\* `slots` lists the observations summed: total = sum of magnitude(slot) * 2^e2 * 10^e10 (the elements of
+\* one mean carry one unit, hence one exponent pair).
+ObCount(o) == IF o.t = "R" THEN o.occ ELSE 1
+RECURSIVE SumCounts(_, _)
+SumCounts(obs, i) == IF i > Len(obs) THEN 0 ELSE ObCount(obs[i]) + SumCounts(obs, i + 1)
 CollectMean(prom, elems) ==
     IF CollectErrs(prom, elems) # {} THEN ErrorCall(CollectErr(prom, elems[Min(CollectErrs(prom, elems))]))
-    ELSE IF Len(CatObs(elems, 1)) = 0 THEN NoCall
-    ELSE Metric(<<[t |-> "R", slot |-> 1, e2 |-> 0, e10 |-> 0, occ |-> Len(CatObs(elems, 1))]>>, prom, prom, <<>>, {})
+    ELSE LET obs == CatObs(elems, 1)
+         IN  IF SumCounts(obs, 1) = 0 THEN NoCall
+             ELSE Metric(<<[t |-> "R", slot |-> obs[1].slot, slots |-> [i \in DOMAIN obs |-> obs[i].slot],
+                            e2 |-> obs[1].e2, e10 |-> obs[1].e10, occ |-> SumCounts(obs, 1)]>>, prom,
+                         IF elems[1].orig = "None" THEN prom ELSE elems[1].orig, <<>>, {})
+\* the same call with its observation slots shifted (to combine several values in one collector)
+Reslot(c, k) == [c EXCEPT !.obs = [i \in DOMAIN @ |-> [@[i] EXCEPT !.slot = @ + k]]]
 
 \* the unit-carrying part of a call: emitted number * scale(unit) = magnitude * scale(orig)
 PhysicalOK(c) ==
@@ -242,7 +260,7 @@ ValItem(name, call) == Item("val", "", name, call)
 
 \* the entry under test: timestamp, config, then one field per base value (field name = base id),
 \* a second config in the middle; sample group of two elements
-BaseSeq == <<"str", "u64", "f64", "dur", "distu", "distdur", "mean", "rich", "err", "empty", "bad", "zero", "zeron">>
+BaseSeq == <<"str", "u64", "f64", "dur", "distu", "distdur", "mean", "rich", "err", "empty", "bad", "zero", "zeron", "richi">>
 EntryE ==
     [items |-> <<TsItem("T1"), CfgItem("c1")>>
                \o [i \in 1..5 |-> ValItem(BaseSeq[i], BaseVal(BaseSeq[i]).call)]
@@ -264,7 +282,12 @@ SgBases == {"S0x", "S0i", "S1x", "S1i", "S2x", "S2i", "S3x", "S3i", "S5x", "S5i"
 SgSize(b) == CASE b \in {"S0x", "S0i"} -> 0 [] b \in {"S1x", "S1i"} -> 1 [] b \in {"S2x", "S2i"} -> 2
                [] b \in {"S3x", "S3i"} -> 3 [] b \in {"S5x", "S5i"} -> 5
 EntryS(b) == [items |-> <<TsItem("T1"), ValItem("u64", BaseVal("u64").call)>>, sg |-> SubSeq(SgKeys, 1, SgSize(b))]
-BaseEntry(b) == CASE b = "E" -> EntryE [] b = "G" -> EntryG [] b = "0" -> EntryEmpty [] b \in SgBases -> EntryS(b)
+\* the entry sent repeatedly through one long-lived stream / format wrapper (VPStreamHist)
+EntryH == [items |-> <<TsItem("T1"), ValItem("u64", BaseVal("u64").call), ValItem("f64", BaseVal("f64").call),
+                       ValItem("rich", BaseVal("rich").call), ValItem("richi", BaseVal("richi").call),
+                       ValItem("str", BaseVal("str").call)>>,
+           sg |-> <<"op">>]
+BaseEntry(b) == CASE b = "H" -> EntryH [] b = "E" -> EntryE [] b = "G" -> EntryG [] b = "0" -> EntryEmpty [] b \in SgBases -> EntryS(b)
 
 (* Entry wrappers: [w, ds, deny, f] *)
 EW(w) == [w |-> w, ds |-> <<>>, deny |-> {}, f |-> ""]
